@@ -381,9 +381,23 @@ class C15(Check):
             if op[0] == 'delns' and (op[1] in mapping or len(pairs) != len(pre_ns) - 1):
                 bad.append(("after del sheet.namespaces[p] the prefix is gone and exactly one @namespace rule less",
                             {'p': op[1], 'mapping': mapping, 'rules_before': [x[1:3] for x in pre_ns], 'rules': pairs}))
-            if op[0] in ('insns', 'insnstext') and outcome != 'ok:n' and (op[1], op[2]) not in pairs:
-                bad.append(("an @namespace rule that insertRule reports as inserted is in the rule list",
-                            {'rule': [op[1], op[2]], 'rules': pairs}))
+            if op[0] in ('insns', 'insnstext') and outcome != 'ok:n':
+                k = int(outcome.split(':')[1])
+                at = sheet.cssRules[k] if 0 <= k < len(sheet.cssRules) else None
+                io = op[4] if op[0] == 'insns' else op[5]
+                if io and at is not None:
+                    after = [r.type for r in sheet.cssRules[k + 1:]]
+                    before = [r.type for r in sheet.cssRules[:k]]
+                    if any(t in (at.CHARSET_RULE, at.IMPORT_RULE) for t in after) or \
+                            any(t in (at.VARIABLES_RULE, at.MEDIA_RULE, at.PAGE_RULE, at.STYLE_RULE, at.FONT_FACE_RULE)
+                                for t in before):
+                        bad.append(("insertRule(inOrder=True) puts an @namespace rule after @charset/@import and "
+                                    "before @variables, @media, @page, @font-face and style rules",
+                                    {'index': k, 'kinds': [r.type for r in sheet.cssRules]}))
+                if at is None or at.type != at.NAMESPACE_RULE or (at.prefix, at.namespaceURI) != (op[1], op[2]):
+                    bad.append(("insertRule returns the index at which the inserted @namespace rule is",
+                                {'rule': [op[1], op[2]], 'returned': k, 'rules': pairs,
+                                 'kinds': [r.type for r in sheet.cssRules]}))
             rpre = split_state(pre)['R']
             if op[0] == 'delrule' and len(sheet.cssRules) != (0 if rpre == '_' else rpre.count(';') + 1) - 1:
                 bad.append(("deleteRule removes exactly one rule", {'pre': pre, 'post': post}))
